@@ -581,14 +581,18 @@ def main():
                 stats['model_disagreements'] += 1
             else:
                 stats['aux_disagreements'] += 1
+        shrink_deadline = time.time() + (90 if tier == 'quick' else 240)
         for f in [x for x in findings if x.kind == 'violation'][:8]:
             def still(lines, f=f):
                 r = run_scenarios([lines])[0]
                 return any(x.kind == 'violation' and sig_of(x) == sig_of(f) for x in judge(r, pdef))
-            small = shrink(f.scen['script'], pdef, still)
-            r = run_scenarios([small])[0]
-            fs2 = [x for x in judge(r, pdef) if x.kind == 'violation']
-            f2 = fs2[0] if fs2 else f
+            if time.time() < shrink_deadline:
+                small = shrink(f.scen['script'], pdef, still)
+                r = run_scenarios([small])[0]
+                fs2 = [x for x in judge(r, pdef) if x.kind == 'violation']
+                f2 = fs2[0] if fs2 else f
+            else:
+                f2 = f            # shrinking budget used up: report the scenario as generated
             k = known_match(prop, f2, known)
             sig = (k['id'] if k else None, sig_of(f2))
             if k:
